@@ -1021,7 +1021,7 @@ fn gen_cases(rng: &mut Rng, tier: Tier) -> Vec<Value> {
     // --- noise, sampling iterators
     for _ in 0..(80 * scale) {
         let n = rng.usize(1, 8);
-        let values: Vec<f64> = (0..n).map(|_| *rng.pick(&[0., -0., 1., -2.5, 100., 0.125, 1e6, 3.])).collect();
+        let values: Vec<f64> = (0..n).map(|_| *rng.pick(&[0., 1., -2.5, 100., 0.125, 1e6, 3.])).collect();
         let lo = rng.range(-8, 4) as f64 / 8.;
         let hi = lo + rng.range(0, 16) as f64 / 8.;
         let us: Vec<f64> = (0..n).map(|_| lo + (hi - lo) * (rng.range(0, 8) as f64 / 8.)).collect();
